@@ -509,6 +509,52 @@ def r10_5(prog, rep):
         rep.ok(rid, "_ical_init_push/first-piece-length-free", ip.loc(), "a parse is started for every non-empty first piece")
 
 
+def r10_6(prog, rep):
+    """The read position in the pushed buffer (`bix`) says which bytes have been consumed; the next pull peeks at `buf + bix` to decide
+    whether a stashed line continues.  It is reset by the push and advanced by the puller only, and the puller advances it only over
+    bytes that it hands to the escape copier in the same block: bytes that are skipped without being copied, or a position moved by
+    anybody else, change what the next piece is taken to continue."""
+    rid = "R10.6"
+    writers = []
+    for f in prog.fns_in("evical.c"):
+        if not f.cfg:
+            continue
+        for b, i, x, line in f.cfg.all_elems():
+            if not isinstance(x, dict):
+                continue
+            for l, kind, nn in writes(x):
+                if lv(l).endswith("->bix") or lv(l).endswith(".bix"):
+                    writers.append((f, b, i, kind, nn, nn.get("line", line)))
+    if len(writers) < 2:
+        raise AnalysisBroken("R10.6: expected the push reset and the pull advance of bix, found %d writes" % len(writers))
+    n = 0
+    for f, b, i, kind, nn, line in writers:
+        n += 1
+        key = "%s/bix-write#%d" % (f.name, sum(1 for w_ in writers[:writers.index((f, b, i, kind, nn, line)) + 1] if w_[0] is f))
+        if kind == "assign" and nn.get("k") == "bin" and nn["op"] == "=" and int_value(nn["r"]) == 0 and f.name in ("_ical_push", "_ical_init_push", "echs_evical_push"):
+            rep.ok(rid, key, f.loc(line), "reset to 0 when a new piece is pushed", nontrivial=False)
+            continue
+        if f.name != "_ical_pull":
+            rep.fail(rid, key, f.loc(line), "%s() moves the read position of the pushed buffer; only the puller may (the next pull peeks at buf + bix, "
+                     "and past the end of the piece when the position is forced there)" % f.name)
+            continue
+        # the advance must be by a length that is copied out in the same block
+        amount = None
+        if kind == "compound" and nn.get("op") == "+=":
+            amount = lv(strip_casts(f.cfg.resolve(nn["r"])))
+        copied = False
+        if amount:
+            for e in f.cfg.blocks[b].elems:
+                for c in calls(e["x"]) if isinstance(e["x"], dict) else []:
+                    if c.get("fn") == "esccpy" and any(lv(strip_casts(f.cfg.resolve(a))) == amount for a in c["a"]):
+                        copied = True
+        if copied:
+            rep.ok(rid, key, f.loc(line), "advanced by %s, the length handed to esccpy() in the same block" % amount)
+        else:
+            rep.fail(rid, key, f.loc(line), "the read position is advanced (%s) over bytes that are not handed to esccpy(): input is dropped depending on "
+                     "where the previous piece ended" % show(nn)[:40])
+
+
 def run(prog, rep, tier, snap):
     rep.rule("R10.1", "stash discipline: bounded stores in esccpy, cursor writes, subscripts, partial-line guard", 10)
     rep.call(r10_1, prog, rep)
@@ -519,6 +565,8 @@ def run(prog, rep, tier, snap):
     rep.call(r10_3, prog, rep)
     rep.rule("R10.4", "results of strchr/strpbrk/memchr are tested before they are dereferenced or advanced", 5)
     rep.call(r10_4, prog, rep)
+    rep.rule("R10.6", "the buffer's read position is reset by the push and advanced by the puller over copied bytes only", 2)
+    rep.call(r10_6, prog, rep)
     rep.rule("R10.5", "where a piece ends does not decide what comes out (escape copier, start of a parse)", 2)
     rep.call(r10_5, prog, rep)
 READY = True
